@@ -97,7 +97,10 @@ def gen_case(rng, force_twin=False):
         r["version"]["codenames"][other] = _json.loads(_json.dumps(r["version"]["codenames"][first]))
         r["config"]["codenames"][other] = _json.loads(_json.dumps(r["config"]["codenames"][first]))
         r["config"]["ignore_errors"] = [f"dists/{other}"]
-    return scn, {"seed": rng.getrandbits(32), "twin": twin, "shared": shared}
+    # pool files that fail for good next to pool files that fail for exactly one round of ten tries and would
+    # succeed afterwards: whatever the completion order, each is asked ten times and counted failed
+    tenpair = (not force_twin) and (not shared) and rng.random() < 0.15
+    return scn, {"seed": rng.getrandbits(32), "twin": twin, "shared": shared, "tenpair": tenpair}
 
 
 def run_case(rep, scn, case, sb, tag, n_orders, n_seeds, lrows=None):
@@ -115,6 +118,12 @@ def run_case(rep, scn, case, sb, tag, n_orders, n_seeds, lrows=None):
         if groups:
             g = sorted(groups)[case["seed"] % len(groups)]
             plan = {victim["url"]: {p: {"first": [], "rest": "error"} for p in groups[g]}}
+    if case.get("tenpair"):
+        for r in scn.repos:
+            pool = sorted(q for q in files[r["url"]] if q.startswith("pool/"))
+            for i, q in enumerate(pool):
+                plan.setdefault(r["url"], {})[q] = ({"first": [], "rest": "error"} if i % 2 == 0 else
+                                                    {"first": ["error"] * 10, "rest": "good"})
     if case.get("crowd"):
         # the upstream sends no Last-Modified for the shared alias (so every sibling transfers it again) and one
         # of its transfers breaks off half way and is retried
@@ -233,6 +242,12 @@ def run(rep: C.Report):
             scn.nthreads = trng.choice([2, 4, 8])
             case = {"seed": trng.getrandbits(32), "twin": False, "shared": False, "mixed": 1 + trng.randrange(3)}
             found |= run_case(rep, scn, case, sb, f"m{i}", 6, 0, lrows)
+        # pool files that fail for good next to pool files that fail for one full round of ten tries
+        for i in range(4 if rep.tier == "quick" else 80):
+            scn = P.gen_scenario(trng, nrepos=1)
+            scn.nthreads = trng.choice([2, 4, 8])
+            case = {"seed": trng.getrandbits(32), "twin": False, "shared": False, "tenpair": True}
+            found |= run_case(rep, scn, case, sb, f"p{i}", 6, 0, lrows)
         # ... and more of them than the window of 128 tasks
         for i in range(3 if rep.tier == "quick" else 40):
             scn, case = gen_case(trng, force_twin="crowd")
@@ -244,7 +259,7 @@ def run(rep: C.Report):
     C.proof_verdict(rep, found)
 
 
-LOCKS_MAX_EVENTS = {"quick": 2000, "thorough": 100000}
+LOCKS_MAX_EVENTS = {"quick": 2000, "thorough": 20000}   # longer schedules are counted as skipped (evidence)
 
 
 def locks_tie(rep, lrows, found):
@@ -269,7 +284,8 @@ def locks_tie(rep, lrows, found):
         rep.count("locks_tie.events", m["events"])
         rep.count("locks_tie.paths_shared_between_files", m["shared_locks"])
     mism, errors = C.run_mismatch_shards(rep.prop, "locks", header, "m_locks", "eq3",
-                                         [(t, "(true, true, true)") for _, t, _ in good], shard=4)
+                                         [(t, "(true, true, true)") for _, t, _ in good], shard=4,
+                                         timeout=900 if rep.tier == "quick" else 3600)
     rep.ties["locks"] = {"cases": len(good), "mismatches": len(mism), "errors": len(errors)}
     if errors:
         rep.violation(f"correspondence locks: model evaluation failed: {errors[0][:300]}",
